@@ -249,7 +249,11 @@ def gen_moov(rng, stsds) -> tuple[bytes, int | None, list[str]]:
     for _ in range(rng.choice([0, 0, 1, 2])):
         children.insert(rng.randrange(1, len(children) + 1), bw.pssh(rng))
     if rng.random() < 0.2:
-        children.append(bw.container(b'udta', [bw.unknown(rng)]))
+        # user data: unknown children, among them QuickTime style types that start with the (c) sign
+        kids = [bw.unknown(rng)]
+        if rng.random() < 0.4:
+            kids.append(bw.box(rng.choice([b'\xa9nam', b'\xa9too', b'\xa9day']), bw.blob(rng, rng.choice([0, 4, 20]))))
+        children.append(bw.container(b'udta', kids))
     if rng.random() < 0.2:
         children.insert(rng.randrange(1, len(children) + 1), bw.unknown(rng))
     return bw.container(b'moov', children, large=rng.random() < 0.05), iv, what
